@@ -30,3 +30,9 @@ mod polynomial;
 mod prng;
 pub mod topology;
 pub mod vdaf;
+
+/// Observation points for the external verification harness. Purely additive; not part of the
+/// supported API.
+#[cfg(feature = "verif-hooks")]
+#[doc(hidden)]
+pub mod verif_hooks;
